@@ -134,6 +134,14 @@ reg('C05',
     'two merged models evolve exactly as each alone (1e-9). Sampling, not proof.',
     'wide limits, no contacts, exact generalized inverse; diverging trajectories counted, not compared', 'DESIGN.md section 4 C05')
 
+reg('C06',
+    'property-based testing (Hypothesis scene/model generators): metamorphic twins (collisions disabled / limits removed), analytic validity predicates over generated histories (push-out, sink bound, rest height, rebound ratio)',
+    'No counter-example in six generated families: hovering bodies (inside or outside a declared contact margin) and separated collidable models step exactly like their '
+    'collision-free twins with unit link rotations; models whose joints stay strictly inside their ranges step exactly like their limit-free twins (incl. ranges that exclude 0); '
+    'a penetrating sphere/box/capsule is never moved inward relative to free fall; dropped spheres, flat boxes and lying capsules never sink more than 5 cm and end within 5 mm of '
+    'the analytic rest height (spring + lying capsule: recorded known finding); sphere rebound ratio within the property\'s margins. Sampling, not proof.',
+    'margins are the property\'s; brax\'s own contact distance decides "separated"; diverged/limit-reaching cases counted, not compared', 'DESIGN.md section 4 C06')
+
 PENDING = {}
 
 
